@@ -67,6 +67,13 @@ def cases(rng, tier):
         yield Case(["q %s %s" % (q, sq) for q in ['len', 'countPos', 'countNeg', 'countNeut', 'fcr', 'ncpr', 'fer', 'kd']], {"kind": "titin-sized"})
     for sq in gen.boundary_seqs(rng, tier != "quick"):
         yield Case(["q %s %s" % (q, sq) for q in ['len', 'countPos', 'countNeg', 'countNeut', 'fcr', 'ncpr', 'aafrac']], {"kind": "boundary-length"})
+    # FCR / NCPR / mean net charge / fraction expanding with their optional pH argument (0 as int and as float, pKa values, 14)
+    for kind_, sq in gen.rand_seqs(rng, 40 if tier == "quick" else 400, 80):
+        lines = []
+        for ph in ("0", "0/1", "39/10", "7/1", "10", "25/2", "14", "14/1"):
+            for g_ in ("ncpr", "fcr", "fer", "mnc"):
+                lines.append("q phq %s %s %s%s" % (sq, g_, ph, " @totnorm" if g_ == "fcr" and rng.random() < 0.3 else ""))
+        yield Case(lines, {"kind": "getters-with-pH"})
     # objects built from sequence files (two per block)
     for c in gen.file_cases(rng, 12 if tier == "quick" else 100, ['countPos', 'countNeg', 'fcr', 'ncpr', 'kd', 'mw', 'len']):
         yield c
